@@ -308,8 +308,50 @@ def rule_R4(chk, repo, eng):
     chk.floor(rid, n, 4)
 
 
+def rule_R5(chk, repo):
+    rid = 'C16.R5'
+    chk.rule(rid, 'parallel-edge merge adds the operators: merge_edges calls edge1.add(edge2) on the equal-upstream path and '
+                  'OpGraphEdge.add keeps one entry per operator id with the summed coefficient, sorted; the node-fusing path '
+                  'redirects every edge of the removed node and appends its edge list to the kept node')
+    from ..match import find, pmatch
+    merge = repo.func('opgraph.OpGraph.merge_edges')
+    par = [s for s in merge.node.body if isinstance(s, ast.If) and s.body and isinstance(s.body[-1], ast.Return)]
+    ok = False
+    if par:
+        calls = [c for x in par[0].body for c in ast.walk(x) if isinstance(c, ast.Call)]
+        ok = any(pmatch('edge1.add(edge2)', c) is not None for c in calls)
+    chk.ob(rid, where(repo, merge, par[0] if par else merge.node), 'merge_edges: parallel edges are merged by adding the operators '
+           'of the removed edge to the kept edge', ok, '', key=f'{rid}|parallel-add')
+    fi = repo.func('opgraph.OpGraphEdge.add')
+    hits = find('__L.append((__i, __c + __d))', fi.node)
+    keep = find('__L.append((__i, __c))', fi.node)
+    srt = [s for s in ast.walk(fi.node) if isinstance(s, ast.Assign) and norm(s.targets[0]) == 'self.opics' and
+           norm(s.value) == 'sorted(self.opics)']
+    src = [l for l in ast.walk(fi.node) if isinstance(l, ast.For) and norm(l.iter) == 'other.opics']
+    chk.ob(rid, where(repo, fi, fi.node), 'OpGraphEdge.add: every operator of the other edge is either added to the matching '
+           'entry (coefficients summed) or appended; the list stays sorted', len(hits) == 1 and len(keep) >= 1 and len(srt) == 1
+           and len(src) == 1, '', key=f'{rid}|edge-add')
+    # node fusing path: redirect + append
+    redir = [s for s in ast.walk(merge.node) if isinstance(s, ast.Assign) and
+             pmatch('self.edges[__e].nids[direction]', s.targets[0]) is not None and norm(s.value) == 'node1.nid']
+    loop = [l for l in ast.walk(merge.node) if isinstance(l, ast.For) and norm(l.iter) == 'node2.eids[1 - direction]']
+    defs = local_defs(merge.node, keep_ctor_calls=True)
+    app = [s for s in ast.walk(merge.node) if isinstance(s, ast.AugAssign) and isinstance(s.op, ast.Add) and
+           norm(s.value) == 'node2.eids[1 - direction]']
+    okapp = False
+    if len(app) == 1 and isinstance(app[0].target, ast.Name):
+        d_ = [x for x in ast.walk(merge.node) if isinstance(x, ast.Assign) and norm(x.targets[0]) == app[0].target.id]
+        okapp = len(d_) == 1 and norm(d_[0].value) == 'node1.eids[1 - direction]'
+    elif len(app) == 1:
+        okapp = norm(app[0].target) == 'node1.eids[1 - direction]'
+    chk.ob(rid, where(repo, merge, merge.node), 'merge_edges: every edge leaving the removed node is redirected to the kept node '
+           'and listed there', len(redir) == 1 and len(loop) == 1 and okapp, '', key=f'{rid}|fuse')
+    chk.floor(rid, 3, 3)
+
+
 def run(chk, repo, tier):
     eng = Engine(repo)
+    rule_R5(chk, repo)
     rule_R1(chk, repo)
     rule_R2(chk, repo, eng)
     rule_R3(chk, repo, eng)
